@@ -160,9 +160,12 @@ def run_job(res, job, tier, deadline, seed):
         t.join()
     # A shard that died: find the case by re-running it with --track
     for (i, rc, out, err) in sorted(failed)[:4]:
-        log("[check] %s shard %d ended abnormally (rc=%s); re-running with --track" % (job["name"], i, rc))
-        done, rc2, out2, err2 = run_shard(Result(), exe, job, tier, i, nshards, deadline, seed, extra=["--track"])
-        m = re.search(r"@(CRASH|HANG) sig=(\S+) case=(.*)", out2)
+        m = re.search(r"@(CRASH|HANG) sig=(\S+) case=(\S.*)", out)
+        out2, err2, rc2 = out, err, rc
+        if not m:
+            log("[check] %s shard %d ended abnormally (rc=%s); re-running with --track" % (job["name"], i, rc))
+            done, rc2, out2, err2 = run_shard(Result(), exe, job, tier, i, nshards, deadline, seed, extra=["--track"])
+            m = re.search(r"@(CRASH|HANG) sig=(\S+) case=(.*)", out2)
         if m:
             res.crashes.append({"job": job, "kind": m.group(1), "sig": m.group(2), "case": m.group(3).strip(),
                                 "stderr": err2[-6000:]})
